@@ -536,4 +536,69 @@ def C19_lossy_full : Prop :=
       LossyRel (Close F) (parseFloatModel feats fmt o isPartial F.fmt s)
         (parseFloatAlgoModel slow feats fmt o isPartial F s true)
 
+/-! ## equality when the moderate path decides; the exact pipeline -/
+
+/-- **`LossyRel` with equality is equality of the lines** -/
+theorem eq_of_lossyRel_eq {x y : String} (h : LossyRel (fun a b => a = b) x y) : x = y := by
+  rcases h with h | ⟨vl, ve, cnt, h1, h2, h3⟩
+  · exact h
+  · rw [h1, h2, h3]
+
+/-- **C19, "equal whenever the fast or moderate path decides"** (decimal, Eisel–Lemire builds): if every `Number` parsed
+from the input is untruncated and non-lossy `compute_float` decides it (in particular: every fast-path input, every
+exactly representable value), the lossy pipeline prints exactly the oracle's line. -/
+theorem C19_decimal_decided (slow : SlowRadix) (feats : Features) (hcompact : feats.compact = false)
+    (fmt : Format) (hr : fmt.mantissaRadix = 10) (hb : fmt.exponentBase = 10)
+    (hclass : feats.format = false ∨ C12.SepPrefixFree fmt)
+    (o : POpts) {F : FTy} (hF : IsLemireFloat F) (isPartial : Bool) (s : List Nat)
+    (h256 : ∀ x ∈ s, x < 256) (hlen : s.length < 2 ^ 60)
+    (hdec : ∀ n cnt, parseFloatSyntax ⟨feats, fmt, false⟩ o isPartial s (formatError feats fmt).isNone =
+      .ok (.number n cnt) → n.manyDigits = false ∧
+        ∃ fp, Lemire.computeFloat F n.exponent n.mantissa false = .ok fp ∧ 0 ≤ fp.exp) :
+    parseFloatModel feats fmt o isPartial F.fmt s = parseFloatAlgoModel slow feats fmt o isPartial F s true := by
+  apply eq_of_lossyRel_eq
+  apply lossyRel_of_numbers
+  intro hval n cnt hp
+  obtain ⟨hmany, fp, hcf, hv⟩ := hdec n cnt hp
+  have hdp := C01Final.dp_not_digit feats fmt o (by omega) hval
+  have hr' : (⟨feats, fmt, false⟩ : Cfg).mantissaRadix = 10 := hr
+  have hb' : (⟨feats, fmt, false⟩ : Cfg).exponentBase = 10 := hb
+  obtain ⟨hx, _, _⟩ := C01Number.number_exact_of_syntax ⟨feats, fmt, false⟩ rfl hclass hr hb o hdp isPartial s _
+    h256 hlen n cnt hp hmany
+  obtain ⟨hl, hrn⟩ := C19.lossy_lemire_agrees F hF n.exponent hx.2.1 n.mantissa hx.1 hcf hv
+  have hfc := fastContract_decimal hF ⟨feats, fmt, false⟩ hr' n
+  have hsf := spec_forms hF ⟨feats, fmt, false⟩ (by omega) (by omega) (by omega) n hmany hx.2.2
+  rw [hsf.2, ← hsf.1, hb']
+  obtain ⟨vl, e1, e2⟩ := lossy_number_core slow ⟨feats, fmt, false⟩ n _ _ hfc.1 (fun v hv' => by
+      rw [hfc.2 v hv', hb'])
+    (by rw [moderatePath_lemire_lossy _ hcompact hr']; exact hl) hv
+  refine ⟨vl, e1, ?_⟩
+  rcases e2 with e2 | e2
+  · exact e2
+  · rw [e2, hrn]; rfl
+
+/-- **lossy vs. non-lossy on the same pipeline** (decimal, slow path modelled): the oracle is what the non-lossy
+pipeline prints (`C01_decimal_full_proved`) -/
+theorem C19_lossy_vs_exact_decimal (slow : SlowRadix) (feats : Features) (fmt : Format)
+    (hr : fmt.mantissaRadix = 10) (hb : fmt.exponentBase = 10) (hclass : feats.format = false ∨ C12.SepPrefixFree fmt)
+    (o : POpts) (F : FTy) (hF : IsLemireFloat F) (isPartial : Bool) (s : List Nat)
+    (h256 : ∀ x ∈ s, x < 256) (hlen : s.length < 2 ^ 60) :
+    LossyRel (Close F) (parseFloatAlgoModel C01SlowMain.slowModel feats fmt o isPartial F s)
+      (parseFloatAlgoModel slow feats fmt o isPartial F s true) := by
+  rw [C01Final.C01_decimal_full_proved feats fmt hr hb hclass o F hF isPartial s h256 hlen]
+  exact C19_lossy_decimal_proved slow feats fmt hr hb hclass o F hF isPartial s h256 hlen
+
+/-! ## what is not true: a correct `+∞` is not preserved -/
+
+/-- `2^1024 − 2^970`, the midpoint between the largest finite double and `2^1024`, in decimal (309 digits) -/
+def overflowTie : List Nat := [49, 55, 57, 55, 54, 57, 51, 49, 51, 52, 56, 54, 50, 51, 49, 53, 56, 48, 55, 57, 51, 55, 50, 56, 57, 55, 49, 52, 48, 53, 51, 48, 51, 52, 49, 53, 48, 55, 57, 57, 51, 52, 49, 51, 50, 55, 49, 48, 48, 51, 55, 56, 50, 54, 57, 51, 54, 49, 55, 51, 55, 55, 56, 57, 56, 48, 52, 52, 52, 57, 54, 56, 50, 57, 50, 55, 54, 52, 55, 53, 48, 57, 52, 54, 54, 52, 57, 48, 49, 55, 57, 55, 55, 53, 56, 55, 50, 48, 55, 48, 57, 54, 51, 51, 48, 50, 56, 54, 52, 49, 54, 54, 57, 50, 56, 56, 55, 57, 49, 48, 57, 52, 54, 53, 53, 53, 53, 52, 55, 56, 53, 49, 57, 52, 48, 52, 48, 50, 54, 51, 48, 54, 53, 55, 52, 56, 56, 54, 55, 49, 53, 48, 53, 56, 50, 48, 54, 56, 49, 57, 48, 56, 57, 48, 50, 48, 48, 48, 55, 48, 56, 51, 56, 51, 54, 55, 54, 50, 55, 51, 56, 53, 52, 56, 52, 53, 56, 49, 55, 55, 49, 49, 53, 51, 49, 55, 54, 52, 52, 55, 53, 55, 51, 48, 50, 55, 48, 48, 54, 57, 56, 53, 53, 53, 55, 49, 51, 54, 54, 57, 53, 57, 54, 50, 50, 56, 52, 50, 57, 49, 52, 56, 49, 57, 56, 54, 48, 56, 51, 52, 57, 51, 54, 52, 55, 53, 50, 57, 50, 55, 49, 57, 48, 55, 52, 49, 54, 56, 52, 52, 52, 51, 54, 53, 53, 49, 48, 55, 48, 52, 51, 52, 50, 55, 49, 49, 53, 53, 57, 54, 57, 57, 53, 48, 56, 48, 57, 51, 48, 52, 50, 56, 56, 48, 49, 55, 55, 57, 48, 52, 49, 55, 52, 52, 57, 55, 55, 57, 50]
+
+/-- **`lossy_overflow_witness`**: the correctly rounded value of `overflowTie` is `+∞` (a tie, to even); the lossy
+pipeline rounds its first 19 digits only and answers with the largest finite double — one pattern below, as
+`CloseDown` allows. (The implementation does the same: `pf f64 … 0 1 …` prints `ok 7fefffffffffffff`.) -/
+theorem lossy_overflow_witness :
+    parseFloatModel {} Format.standard {} false f64 overflowTie = "ok 7ff0000000000000 -" ∧
+    parseFloatAlgoModel slowOracle {} Format.standard {} false FTy.f64 overflowTie true = "ok 7fefffffffffffff -" := by
+  decide +kernel
+
 end LexVerif.Props.C19Final
